@@ -1,1 +1,2 @@
 import ChiGen.ErrorModels
+import ChiGen.PopModels
